@@ -3,44 +3,74 @@ package main
 import (
 	"go/ast"
 	"go/token"
-	"strings"
 )
 
 // bodySkeleton names the statements of a client method's body, in order: which of them there are is part of
 // what "the method sends the request and returns its answer" means (an early return in front of the request,
-// a cache, a retry loop, a dropped error check all change the skeleton).
+// a cache, a retry loop, a dropped error check, a result taken from somewhere else all change the skeleton).
+// The kinds follow the VALUE through the body, not only the syntax of each statement: `assert` is an
+// assertion on the variable the request call defined, `ret` returns the variable that assertion defined.
 //
-//	call            x, err := c.MakeRequest…(…)                       (exactly one call of a request function)
-//	iferr           if err != nil { return …, errors.Wrap(err, …) }     (nothing but that return)
-//	assert          resp, ok := x.(T)
-//	ifnotok-panic   if !ok { panic(…) }
-//	ret             return resp, nil
-//	ret-assert      return x.(T), nil
+//	call            x, err := <receiver>.MakeRequest…(…)              (the only call of a request function so far)
+//	iferr           if err != nil { return <nil|false|literal>, errors.Wrap(err, …) }   (err of the call; nothing else)
+//	assert          resp, ok := x.(T)                                  (x of the call)
+//	ifnotok-panic   if !ok { panic(…) }                                (ok of the assertion)
+//	ret             return resp, nil                                   (resp of the assertion)
+//	ret-assert      return x.(T), nil                                  (x of the call)
 //	other:<kind>    anything else
-func bodySkeleton(fd *ast.FuncDecl) string {
+func bodySkeleton(fd *ast.FuncDecl) []string {
 	if fd.Body == nil {
-		return "nobody"
+		return []string{"other:nobody"}
+	}
+	sk := skel{}
+	if fd.Recv != nil && len(fd.Recv.List) == 1 && len(fd.Recv.List[0].Names) == 1 {
+		sk.recv = fd.Recv.List[0].Names[0].Name
 	}
 	var out []string
 	for _, st := range fd.Body.List {
-		out = append(out, stmtKind(st))
+		out = append(out, sk.stmtKind(st))
 	}
-	return strings.Join(out, ";")
+	return out
 }
 
-func isRequestCall(e ast.Expr) bool {
+// skel carries the names the statements seen so far have defined.
+type skel struct {
+	recv       string // receiver name
+	res, err   string // x, err := recv.MakeRequest(…)
+	resp, ok   string // resp, ok := x.(T)
+	calls      int
+}
+
+func requestCall(e ast.Expr) (*ast.CallExpr, *ast.SelectorExpr) {
 	c, ok := e.(*ast.CallExpr)
 	if !ok {
-		return false
+		return nil, nil
 	}
 	sel, ok := c.Fun.(*ast.SelectorExpr)
-	return ok && (sel.Sel.Name == "MakeRequest" || sel.Sel.Name == "MakeRequestWithHintToDecoder")
+	if ok && (sel.Sel.Name == "MakeRequest" || sel.Sel.Name == "MakeRequestWithHintToDecoder") {
+		return c, sel
+	}
+	return nil, nil
 }
 
 func countRequestCalls(n ast.Node) int {
 	k := 0
 	ast.Inspect(n, func(x ast.Node) bool {
-		if e, ok := x.(ast.Expr); ok && isRequestCall(e) {
+		if e, ok := x.(ast.Expr); ok {
+			if c, _ := requestCall(e); c != nil {
+				k++
+			}
+		}
+		return true
+	})
+	return k
+}
+
+// countCalls: calls of any function inside n (a skeleton statement has exactly the calls its kind names).
+func countCalls(n ast.Node) int {
+	k := 0
+	ast.Inspect(n, func(x ast.Node) bool {
+		if _, ok := x.(*ast.CallExpr); ok {
 			k++
 		}
 		return true
@@ -48,56 +78,99 @@ func countRequestCalls(n ast.Node) int {
 	return k
 }
 
-func stmtKind(st ast.Stmt) string {
+func identName(e ast.Expr) string {
+	if id, ok := e.(*ast.Ident); ok {
+		return id.Name
+	}
+	return ""
+}
+
+func (sk *skel) stmtKind(st ast.Stmt) string {
 	switch s := st.(type) {
 	case *ast.AssignStmt:
-		if s.Tok == token.DEFINE && len(s.Lhs) == 2 && len(s.Rhs) == 1 {
-			if isRequestCall(s.Rhs[0]) && countRequestCalls(s) == 1 {
-				return "call"
+		if s.Tok != token.DEFINE || len(s.Lhs) != 2 || len(s.Rhs) != 1 {
+			return "other:assign"
+		}
+		a, b := identName(s.Lhs[0]), identName(s.Lhs[1])
+		if a == "" || b == "" || a == "_" || b == "_" {
+			return "other:assign"
+		}
+		if c, sel := requestCall(s.Rhs[0]); c != nil {
+			if countRequestCalls(s) != 1 {
+				return "other:nested-call"
 			}
-			if _, ok := s.Rhs[0].(*ast.TypeAssertExpr); ok && countRequestCalls(s) == 0 {
-				return "assert"
+			if sk.calls > 0 {
+				return "other:second-call"
 			}
+			if sk.recv == "" || identName(sel.X) != sk.recv {
+				return "other:call-on-" + text(sel.X)
+			}
+			sk.calls++
+			sk.res, sk.err = a, b
+			return "call"
+		}
+		if ta, ok := s.Rhs[0].(*ast.TypeAssertExpr); ok && ta.Type != nil && countCalls(s) == 0 {
+			if sk.calls != 1 || identName(ta.X) != sk.res {
+				return "other:assert-on-" + text(ta.X)
+			}
+			if sk.resp != "" {
+				return "other:second-assert"
+			}
+			sk.resp, sk.ok = a, b
+			return "assert"
 		}
 		return "other:assign"
 	case *ast.IfStmt:
-		if s.Init != nil || s.Else != nil || countRequestCalls(s) != 0 || len(s.Body.List) != 1 {
+		if s.Init != nil || s.Else != nil || len(s.Body.List) != 1 {
 			return "other:if"
 		}
 		switch c := s.Cond.(type) {
 		case *ast.BinaryExpr: // err != nil
-			x, xok := c.X.(*ast.Ident)
-			y, yok := c.Y.(*ast.Ident)
-			if c.Op == token.NEQ && xok && yok && x.Name == "err" && y.Name == "nil" {
-				if r, ok := s.Body.List[0].(*ast.ReturnStmt); ok && len(r.Results) == 2 {
-					if call, ok := r.Results[1].(*ast.CallExpr); ok {
-						if sel, ok := call.Fun.(*ast.SelectorExpr); ok && sel.Sel.Name == "Wrap" {
-							return "iferr"
-						}
+			if c.Op == token.NEQ && sk.calls == 1 && identName(c.X) == sk.err && identName(c.Y) == "nil" {
+				r, ok := s.Body.List[0].(*ast.ReturnStmt)
+				if !ok || len(r.Results) != 2 || countCalls(r) != 1 {
+					return "other:if"
+				}
+				switch z := r.Results[0].(type) { // the zero value of the result type
+				case *ast.Ident:
+					if z.Name != "nil" && z.Name != "false" {
+						return "other:if"
 					}
+				case *ast.BasicLit:
+				default:
+					return "other:if"
+				}
+				call, ok := r.Results[1].(*ast.CallExpr)
+				if !ok || len(call.Args) < 1 || identName(call.Args[0]) != sk.err {
+					return "other:if"
+				}
+				if sel, ok := call.Fun.(*ast.SelectorExpr); ok && identName(sel.X) == "errors" && sel.Sel.Name == "Wrap" {
+					return "iferr"
 				}
 			}
 		case *ast.UnaryExpr: // !ok
-			if x, ok := c.X.(*ast.Ident); ok && c.Op == token.NOT && x.Name == "ok" {
-				if es, ok := s.Body.List[0].(*ast.ExprStmt); ok {
-					if call, ok := es.X.(*ast.CallExpr); ok {
-						if id, ok := call.Fun.(*ast.Ident); ok && id.Name == "panic" {
-							return "ifnotok-panic"
-						}
+			if c.Op == token.NOT && sk.ok != "" && identName(c.X) == sk.ok {
+				if es, ok := s.Body.List[0].(*ast.ExprStmt); ok && countCalls(es) <= 3 && countRequestCalls(es) == 0 {
+					if call, ok := es.X.(*ast.CallExpr); ok && identName(call.Fun) == "panic" {
+						return "ifnotok-panic"
 					}
 				}
 			}
 		}
 		return "other:if"
 	case *ast.ReturnStmt:
-		if len(s.Results) == 2 && countRequestCalls(s) == 0 {
-			if id, ok := s.Results[1].(*ast.Ident); ok && id.Name == "nil" {
-				switch s.Results[0].(type) {
-				case *ast.Ident:
+		if len(s.Results) == 2 && identName(s.Results[1]) == "nil" && countCalls(s) == 0 {
+			switch r := s.Results[0].(type) {
+			case *ast.Ident:
+				if sk.resp != "" && r.Name == sk.resp {
 					return "ret"
-				case *ast.TypeAssertExpr:
+				}
+				return "other:return-" + r.Name
+			case *ast.TypeAssertExpr:
+				if r.Type != nil && sk.calls == 1 && identName(r.X) == sk.res {
 					return "ret-assert"
 				}
+				return "other:return-assert-on-" + text(r.X)
 			}
 		}
 		return "other:return"
